@@ -568,7 +568,7 @@ def fam_nested(rng, i, force=None):
     coqp = {"macros": [(m2, [], [(["a", "b"], read("(let ((%s 2)) (list a b %s))" % (s2, s2))[0])]),
                        (m, [], [(["q"], read("(let ((%s 1)) (%s %s q))" % (s1, m2, s1))[0])])],
             "prog": [m, Lit("0")], "globals": ["list"]}
-    return {"family": "nested", "outer": s1, "inner": s2, "units": units, "expected": "(I1 I0 I2)",
+    return {"family": "nested", "outer": s1, "inner": s2, "units": units, "expected": "(I1 I0 I2)", "ndefs": 2,
             "collision": "nested_same_spelling" if s1 == s2 else None, "coq": coqp}
 
 
@@ -579,7 +579,7 @@ def fam_patvar(rng, i, force=None):
     units = ["(define-syntax %s (syntax-rules () [(_ %s r ...) (list %s r ...)]))" % (m2, p, p),
              "(define-syntax %s (syntax-rules () [(_ q) (let ([%s 1]) (%s q %s %s))]))" % (m, b, m2, b, b),
              "(%s 0)" % m]
-    return {"family": "patvar", "binder": b, "patvar": p, "units": units, "expected": "(I0 I1 I1)",
+    return {"family": "patvar", "binder": b, "patvar": p, "units": units, "expected": "(I0 I1 I1)", "ndefs": 2,
             "collision": "nested_same_spelling" if b == p else None, "coq": None}
 
 
@@ -615,6 +615,7 @@ def fam_shadow(rng, i, force=None):
         units = pre + [d, use]
     coqp = {"macros": [(m, [], [(["q"], [g, "q"])])], "prog": prog, "globals": [g]}
     return {"family": "shadow", "global": g, "gkind": kind, "local": s, "how": how, "units": units,
+            "ndefs": 2 if kind == "user-earlier-unit" else 1,
             "expected": expected, "collision": "use_site_shadowing" if s == g else None, "coq": coqp}
 
 
@@ -639,7 +640,7 @@ def fam_binder_form(rng, i, force=None):
              "(define %s 5)" % u, "(%s %s)" % (m, u)]
     coll = "unrenamed_binder" if ((u == t and form in UNRENAMED_FORMS) or u in IMPLICIT_BINDERS.get(form, [])) else None
     return {"family": "binder_form", "form": form, "binder": t, "user": u, "units": units, "expected": "(I1 I5)",
-            "collision": coll, "coq": None}
+            "ndefs": 1, "collision": coll, "coq": None}
 
 
 def fam_recursive(rng, i, force=None):
@@ -673,14 +674,14 @@ def fam_recursive(rng, i, force=None):
         use = "(let ([%s 0] [k 0]) (%s (< k 3) (set! k (+ k 1)) (set! %s (+ %s 10))) (list %s k))" % (u, m, u, u, u)
         exp = "(I30 I3)"
     return {"family": "recursive", "which": which, "binder": t, "user": u, "units": [d, use], "expected": exp,
-            "collision": None, "coq": None}
+            "ndefs": 1, "collision": None, "coq": None}
 
 
 def fam_macro_defining(rng, i, force=None):
     t = rng.choice(POOL)
     u = rng.choice(POOL)
     m = "hd%d" % i
-    which = rng.choice(["const", "binder"])
+    which = "binder" if force is True else ("const" if force is False else rng.choice(["const", "binder"]))
     if which == "const":
         units = ["(define-syntax %s (syntax-rules () [(_ name val) (define-syntax name (syntax-rules () [(_) val]))]))" % m,
                  "(%s %sgen 5)" % (m, m), "(let ([%s 1]) (list (%sgen) %s))" % (u, m, u)]
@@ -705,7 +706,7 @@ def fam_literal(rng, i, force=None):
         use = "(let ([unrelated 5]) (%s 1 %s 2))" % (m, lit)
         exp = "('\"arrow\" I1 I2)"
     return {"family": "literal", "lit": lit, "shadowed": shadow, "units": [d, use], "expected": exp,
-            "collision": None, "coq": None}
+            "ndefs": 1, "collision": None, "coq": None}
 
 
 def fam_scope_insensitive(rng, i, force=None):
@@ -727,7 +728,55 @@ def fam_scope_insensitive(rng, i, force=None):
         if other == t:
             pass
     return {"family": "scope_insensitive", "which": which, "binder": t, "other": other, "units": units,
+            "ndefs": 1 if which == "quoted" else 2,
             "expected": exp, "collision": "renamer_scope_insensitive" if other == t else None, "coq": None}
+
+
+
+# ----------------------------------------------------------------------------- macros provided by modules
+MODULARIZABLE = ["nested", "patvar", "shadow", "binder_form", "recursive", "literal", "scope_insensitive"]
+
+
+def module_source(def_units):
+    """a module whose body is the definition units of a hygiene program; macros are provided for-syntax"""
+    text = "\n".join(def_units)
+    macros = re.findall(r"\(define-syntax\s+([^\s()]+)", text)
+    names = [n for n in re.findall(r"(?m)^\(define\s+\(?([^\s()]+)", text)]   # top-level definitions only
+    prov = " ".join("(for-syntax %s)" % m for m in macros) + " " + " ".join(names)
+    return "(provide %s)\n%s\n" % (prov.strip(), text)
+
+
+def modularize(c, root, tag):
+    """the same program with its definitions moved into a generated module file that the use site requires"""
+    n = c["ndefs"]
+    path = os.path.join(root, "c13m_%s.scm" % tag)
+    os.makedirs(root, exist_ok=True)
+    with open(path, "w") as f:
+        f.write(module_source(c["units"][:n]))
+    mc = dict(c)
+    mc["units"] = ['(require "%s")' % path] + list(c["units"][n:])
+    mc["via_module"] = True
+    mc["module_source"] = module_source(c["units"][:n])
+    mc["coq"] = None
+    if c["family"] == "shadow":
+        # free identifiers of a module's template are resolved to the module's (mangled) bindings: a use-site
+        # binding of the same spelling must not capture them - no known class here, any capture is a violation
+        mc["collision"] = None
+    return mc
+
+
+def fam_module_macro_name(rng, i, root, force=None):
+    """the template of a module macro uses another macro of the module; the requiring file defines a macro of its
+    own - with the same name (planted collision) or with another name"""
+    inner = "hz%din" % i
+    user = inner if force is True else ("hz%duser" % i if force is False else rng.choice([inner, "hz%duser" % i]))
+    m = "hz%d" % i
+    defs = ["(define-syntax %s (syntax-rules () [(_ a b) (let ([u 2]) (list a b u))]))" % inner,
+            "(define-syntax %s (syntax-rules () [(_ q) (let ([t 1]) (%s t q))]))" % (m, inner)]
+    c = {"family": "module_macro_name", "inner": inner, "user_macro": user, "ndefs": 2, "expected": "(I1 I0 I2)",
+         "units": defs + ["(define-syntax %s (syntax-rules () [(_ a b) 'user-macro]))" % user, "(%s 0)" % m],
+         "collision": "module_macro_name" if user == inner else None, "coq": None}
+    return modularize(c, root, "z%d" % i)
 
 
 FAMILIES = [fam_nested, fam_patvar, fam_shadow, fam_binder_form, fam_recursive, fam_macro_defining, fam_literal,
@@ -831,7 +880,8 @@ def run(ck):
     ]
     ck.assumptions = [
         "vector / bytevector patterns, quoted patterns, keywords, datum->syntax, syntax-const-if and #%syntax-span are outside the model",
-        "all macro uses are in the same source as the definition (source-id based suppression of shadowed macro names not modelled)",
+        "the Coq model covers macros used in the source that defines them; macros provided by modules are covered by the "
+        "engine-vs-construction oracle only (module-qualified resolution of template free identifiers is not modelled)",
         "the reader rejects identifiers starting with ## (checked on the engine in every run)",
     ]
     proved = ck.proof_stage(["c13"], ["c13/Properties_C13"], "c13/Pins_C13.v")
@@ -850,6 +900,21 @@ def run(ck):
         for force in [True] * reps + [False] * reps + [None] * reps:
             hcases.append(fam(rng, idx, force))
             idx += 1
+    # ---------------- (H') the same families with the macros provided by generated module files
+    import shutil
+    mroot = os.path.join(ck.work, "mods")
+    shutil.rmtree(mroot, ignore_errors=True)
+    mreps = 2 if quick else 12
+    byname = {f.__name__[4:]: f for f in FAMILIES}
+    for name in MODULARIZABLE:
+        for force in [True] * mreps + [False] * mreps + [None] * mreps:
+            hcases.append(modularize(byname[name](rng, idx, force), mroot, "h%d" % idx))
+            idx += 1
+    for force in [True] * (2 * mreps) + [False] * (2 * mreps):
+        hcases.append(fam_module_macro_name(rng, idx, mroot, force))
+        idx += 1
+    # ---------------- predicates must not swallow cases of other families
+    selftest_predicates(ck, hcases)
     # ---------------- (E) malformed
     ecases = [gen_malformed(rng, i) for i in range(250 if quick else 5000)]
     # the reader must reject ##-identifiers (condition (iii) of the known class is enforced by the lexer)
@@ -905,9 +970,11 @@ def run(ck):
         got = impl_value(res[-1] if res else None)
         ck.cov["evaluations"] += 1
         desc = dict(strip(c), impl=got)
-        key = ("hyg", c["family"], c.get("collision"), c.get("form"), c.get("which"), c.get("how"), c.get("gkind"))
+        key = ("hyg", c["family"], c.get("collision"), c.get("form"), c.get("which"), c.get("how"), c.get("gkind"),
+               bool(c.get("via_module")))
         seen.add(key)
-        bump(hist, "hyg:%s:%s" % (c["family"], "known-class" if c.get("collision") else "clean"))
+        bump(hist, "hyg:%s%s:%s" % ("module:" if c.get("via_module") else "", c["family"],
+                                    "known-class" if c.get("collision") else "clean"))
         if j % 17 == 0:
             ck.sample(desc)
         if c.get("coq"):
@@ -971,13 +1038,19 @@ def replay(ck, path):
 # Decided from the generated case description only (never from the engine's answer).
 def c13_nested_same_spelling(case, params):
     """a template-introduced binder of one macro meets, in one expansion, another macro definition that uses the
-    same spelling as an introduced binder or as a pattern variable"""
-    return case.get("family") in ("nested", "patvar") and case.get("collision") == "nested_same_spelling"
+    same spelling as an introduced binder (family nested) or as a pattern variable (family patvar)"""
+    if case.get("family") == "nested":
+        return case.get("outer") is not None and case.get("outer") == case.get("inner")
+    if case.get("family") == "patvar":
+        return case.get("binder") is not None and case.get("binder") == case.get("patvar")
+    return False
 
 
 def c13_use_site_shadowing(case, params):
-    """a local binding at the use site has the spelling of a free identifier of the template"""
-    return case.get("family") == "shadow" and case.get("collision") == "use_site_shadowing"
+    """a local binding at the use site has the spelling of a free identifier of the template of a macro defined in
+    the same file (macros provided by modules resolve their free identifiers to the module: not in the class)"""
+    return (case.get("family") == "shadow" and not case.get("via_module")
+            and case.get("local") is not None and case.get("local") == case.get("global"))
 
 
 def c13_unrenamed_binder(case, params):
@@ -1001,6 +1074,69 @@ def c13_macro_defining(case, params):
     return case.get("family") == "macro_defining" and case.get("which") == "binder"
 
 
+def c13_module_macro_name(case, params):
+    """the template of a macro provided by a module uses another macro of that module and the requiring file
+    defines a macro with the same name"""
+    return (case.get("family") == "module_macro_name" and case.get("inner") is not None
+            and case.get("inner") == case.get("user_macro"))
+
+
 def c13_multi_ellipsis(case, params):
     """a template list with two or more ellipses at the same level (only the first one is expanded)"""
     return case.get("kind") == "match" and case.get("multi_ellipsis_template") is True
+
+
+# home families of every predicate: a predicate may only answer True inside them
+PRED_HOME = {
+    "c13_nested_same_spelling": {"nested", "patvar"},
+    "c13_use_site_shadowing": {"shadow"},
+    "c13_unrenamed_binder": {"binder_form"},
+    "c13_renamer_scope_insensitive": {"scope_insensitive"},
+    "c13_macro_defining": {"macro_defining"},
+    "c13_module_macro_name": {"module_macro_name"},
+    "c13_multi_ellipsis": {"match"},
+}
+
+
+def selftest_predicates(ck, hcases):
+    """Every known-class predicate is fed every generated hygiene case (all families, planted collisions and clean
+    variants, in-file and via module) plus one matching case: it must answer False outside its home families and
+    False on the clean variants of its own family, and True on the collision it deliberately plants."""
+    import sys
+    me = sys.modules[__name__]
+    rng = __import__("random").Random(7)
+    probe = [dict(strip(c)) for c in hcases]
+    probe.append(dict(strip(gen_match_case(rng, 0)), multi_ellipsis_template=True))
+    probe.append(dict(strip(gen_match_case(rng, 1)), multi_ellipsis_template=False))
+    probe.append({"family": "malformed", "units": ["x"], "def": "", "use": ""})
+    findings = {f["class"]["predicate"]: f["class"].get("params", {}) for f in ck.findings}
+    n = 0
+    bad = []
+    fams_seen = set()
+    for pname, home in sorted(PRED_HOME.items()):
+        pred = getattr(me, pname)
+        params = findings.get(pname, {})
+        hit_home = False
+        for c in probe:
+            fam = c.get("family") or c.get("kind")
+            fams_seen.add(fam)
+            ans = bool(pred(c, params))
+            n += 1
+            if fam not in home and ans:
+                bad.append("%s answers True on a case of family %s" % (pname, fam))
+            if fam in home and fam != "match":
+                planted = c.get("collision") is not None
+                if ans and not planted:
+                    bad.append("%s answers True on a clean case of its family %s: %s" % (pname, fam, c.get("units")))
+                if ans:
+                    hit_home = True
+            if fam == "match" and ans:
+                hit_home = True
+        if not hit_home:
+            bad.append("%s never answers True on the collisions planted for it" % pname)
+    missing = set(findings) - set(PRED_HOME)
+    if missing:
+        bad.append("predicates listed in known_findings.d/C13.json without a home family: %s" % sorted(missing))
+    ck.cov["predicate_selftest"] = {"assertions": n, "families": sorted(f for f in fams_seen if f), "failures": len(bad)}
+    for b in bad[:5]:
+        ck.violation("known-class predicate self-test failed: " + b, {"selftest": b}, no_input=True, tag="selftest")
